@@ -222,7 +222,36 @@ NOT_APPLICABLE = {
            "dynamic technique. Panic-freedom of these functions is covered under C11.",
 }
 
-NOT_BUILT = "static check not built yet in this session (see DESIGN.md §9 build order)"
+# clauses added after the first claim texts were written (see DESIGN.md §4 for the exact statements)
+EXTRA = {
+    "C03": "Also decided: types_compatible never equates distinct nominal/generic heads (NOMINAL, decision table); checker "
+           "context set on entry to a nested body is restored on exit (CTXSCOPE); two run-time names are related only by "
+           "equality or hash lookup, never by prefix/suffix/substring (NAMEEQ).",
+    "C05": "The bounds guard is type-aware and follows the index into a crate-local normalising helper; explicit "
+           "saturating_*/checked_* arithmetic counts as overflow-safe, wrapping_* as a finding.",
+    "C06": "Also decided: both operands of a binary const expression are evaluated on every path (OPERANDS); the const "
+           "evaluator never folds //, %, /, ** with Rust's native operators (RAWARITH, with a detector self-check on "
+           "the incan_core kernels).",
+    "C07": "Also decided: no path in the compound-assignment arm avoids the policy call except over a not-numeric edge "
+           "(NOBYPASS); only the three syntactic classifiers call PowExponentKind::from_literal_info (EXPKIND).",
+    "C08": "Also decided: the formatter lexes exactly the text it was given (SRCTEXT); a library byte escaper used by the "
+           "Bytes arm is invertible by the byte lexer (model of std::ascii::escape_default); the Tuple arm writes the "
+           "singleton comma (TUPLE1).",
+    "C13": "Also decided: the escaped spelling never reaches a map/set lookup or a name comparison (ESCKEY).",
+    "C14": "Also decided: check_with_imports records the export list of every dependency, also an empty one (REGALL).",
+    "C15": "Also decided: feature flags are read only after every scan_for_* has run (SCANORDER); a crate is recorded as "
+           "already declared only on paths that pushed its dependency line.",
+    "C16": "Also decided: -x examines the reported result, after the xfail inversion (STOP); harness files are rewritten "
+           "from the current source before every cargo run.",
+    "C18": "Also decided: the analysed state is stored before diagnostics are published (STOREFIRST); only "
+           "analyze_document and did_close write `documents` and no handler skips the analysis of a change "
+           "(WHOMAYWRITE); did_close removes the entry before polling any future other than the lock's.",
+}
+THOROUGH = (" Thorough tier = the same rules plus a sensitivity self-test: every recorded seeded change this check detects "
+            "(/verif/seeded) is applied to a scratch copy of /repo's current tree and must be re-detected by the same "
+            "static check (results under coverage.sensitivity_self_test).")
+
+NOT_BUILT = "static check not built"
 
 ALL = ["C%02d" % i for i in range(1, 21)]
 
@@ -239,7 +268,9 @@ def main():
                 "evidence_file": "/verif/evidence/%s.json" % pid,
                 "replay_cmd_template": "./check %s --replay {path}" % pid,
                 "engine": "factdrv+rules",
-                "level_claimed": {"category": "other", "text": text, "design_ref": ref},
+                "level_claimed": {"category": "other",
+                                  "text": text + ((" " + EXTRA[pid]) if pid in EXTRA else "") + THOROUGH,
+                                  "design_ref": ref},
                 "level_note": note,
                 "technique": tech,
             })
@@ -268,7 +299,8 @@ def main():
                                "field projections, ADT/impl/module tables) as JSONL"},
             {"name": "rules", "path": "/verif/rules", "serves_properties": sorted(CLAIMED),
              "kind_free_text": "python3 rule engines over the facts: COVER, EXHAUST, DOM, TABLE, SIGN, HASHORDER, "
-                               "PANIC, FLOW, LINESTATE, LOCKSTATE (DESIGN.md §3)"},
+                               "PANIC, CONSUME, WALKER, LINESTATE, LOCKSTATE, LINK, mireval/signeval (DESIGN.md §3); "
+                               "rules/sensitivity.py = thorough-tier self-test"},
         ],
         "checks": checks,
         "not_applicable": na,
